@@ -339,6 +339,8 @@ pub fn scope(name: &str) -> Scope {
             false,
             &['a', 'b', 'c', 'd'],
         ),
+        // alternations with an empty branch in first, middle or last position (its priority)
+        "EMPB" => Scope::new("EMPB", &["b", "a", "a?", "(?:|a)", "(?:a|)", "(?:|a|b)", "(?:a||b)", "(?:()|a)"], &[], false, &['a', 'b']),
         // counted repeats of bodies that are empty only at a line boundary, under flag m
         "ALTM" => Scope::new("ALTM", &["a", "b", "(?:^|a)", "(?:a|$)", "\\n"], &["{2}", "{3}", "?"], false, &['a', 'b', '\n']),
         // line-anchored terms that consume newlines: several matches on consecutive lines
@@ -491,6 +493,9 @@ pub const T_XESC: [&str; 11] = ["[", "]", "[^", "-[", "\\p{L}", "\\P{Lu}", "\\p{
 
 /// Class syntax: ranges whose ends are escapes, hyphens in every position, subtraction.
 pub const T_CLS: [&str; 9] = ["[", "[^", "]", "-", "-[", "a", "b", "\\d", "\\-"];
+
+/// Redundant spellings of literals next to quantified terms: `a{1}` and `(?:a)` are `a`.
+pub const T_SPELL: [&str; 7] = ["a{1}", "(?:a)", "a", "d*", "d", "d+", "(?:d){1}"];
 
 pub fn tokens_to_string(alphabet: &[&str], digits: &[usize]) -> String {
     let mut s = String::new();
